@@ -255,6 +255,17 @@ def lacing_values(p):
     return n
 
 
+def last_nonempty_index(p):
+    """1-based index of the last non-empty packet of a page (0: none)"""
+    return max([i + 1 for i, d in enumerate(p.packets) if d] or [0])
+
+
+def segments_bounded(sizes, ds, wr):
+    """Proofs.C15_from_packets.segments_bounded: zlen ps + bmax ds wr / 255 <= 255"""
+    bmax = ds - 29 + (ds // 255) * 255 + max(wr - 1, 0)
+    return len(sizes) + bmax // 255 <= 255
+
+
 def classify(sizes, ds):
     """class of a (minimised) input on which from_packets builds a page with > 255 lacing values"""
     if sizes and max(sizes) == 0:
@@ -363,7 +374,11 @@ def oracle_paging(ctx, O, sizes, packets, seq, ds, wr, st, pages, tag="lattice")
         mini = minimise(O, sizes, seq, ds, wr) if len(sizes) <= 400 else sizes
         cls = classify(mini, ds)
         d = dict(base)
-        d.update({"class": cls, "minimal_sizes_rle": rle(mini), "minimal_n": len(mini)})
+        # the shape of the known defect: the packet-count guard (< 255 packets when data is added) held on the
+        # overflowing page, and the input is outside the precondition of theorem C15_pages_valid
+        guard_held = all(last_nonempty_index(p) <= 254 for p in pages if lacing_values(p) > 255)
+        d.update({"class": cls, "minimal_sizes_rle": rle(mini), "minimal_n": len(mini), "packet_guard_held": guard_held,
+                  "inside_segments_bounded": segments_bounded(sizes, ds, wr)})
         ctx.violation("oracle", WHAT_LACING, d)
         ok = False
     # coherence of the page list
